@@ -55,6 +55,8 @@ type XWorkbook struct {
 	// RelsInfraFirst: /_rels/.rels lists the officeDocument relationship last and
 	// workbook.xml.rels lists sharedStrings / styles / theme before the worksheets
 	RelsInfraFirst bool
+	// Spelling of workbook.xml, its relationships, /_rels/.rels and of the cell / row attributes
+	Sp Spelling
 }
 
 const (
@@ -80,34 +82,54 @@ func runsXML(s string) string {
 	return `<r><rPr><b/></rPr><t>` + esc(a) + `</t></r><r><t>` + esc(b) + `</t></r>`
 }
 
-func cellXML(c XCell) string {
-	r := ` r="` + esc(c.Ref) + `"`
+func cellXML(c XCell, sp Spelling) string {
+	// <c r=".." s=".." t=".."> with the attributes in the spelling's order
+	open := func(t string, selfClose bool) string {
+		as := []attr{{"r", c.Ref}}
+		if c.Kind == "z" || sp.Rev || sp.Single || sp.OpenClose || sp.Gaps {
+			as = append(as, attr{"s", "0"}) // the default style index, spelled out
+		}
+		if t != "" {
+			as = append(as, attr{"t", t})
+		}
+		e := Spelling{Rev: sp.Rev, Single: sp.Single}.el("c", as)
+		if selfClose {
+			if sp.OpenClose {
+				return strings.TrimSuffix(e, "/>") + "></c>"
+			}
+			return e
+		}
+		return strings.TrimSuffix(e, "/>") + ">"
+	}
 	switch c.Kind {
 	case "s", "sr", "se":
-		return fmt.Sprintf(`<c%s t="s"><v>%d</v></c>`, r, c.SI)
+		return open("s", false) + fmt.Sprintf(`<v>%d</v></c>`, c.SI)
 	case "is":
-		return `<c` + r + ` t="inlineStr"><is><t>` + esc(c.Text) + `</t></is></c>`
+		return open("inlineStr", false) + `<is><t>` + esc(c.Text) + `</t></is></c>`
 	case "isr":
-		return `<c` + r + ` t="inlineStr"><is>` + runsXML(c.Text) + `</is></c>`
+		return open("inlineStr", false) + `<is>` + runsXML(c.Text) + `</is></c>`
 	case "str":
 		a, b := split(c.Text)
-		return `<c` + r + ` t="str"><f>CONCATENATE(&quot;` + esc(a) + `&quot;,&quot;` + esc(b) + `&quot;)</f><v>` + esc(c.Text) + `</v></c>`
+		return open("str", false) + `<f>CONCATENATE(&quot;` + esc(a) + `&quot;,&quot;` + esc(b) + `&quot;)</f><v>` + esc(c.Text) + `</v></c>`
 	case "b":
-		return `<c` + r + ` t="b"><v>` + esc(c.Text) + `</v></c>`
+		return open("b", false) + `<v>` + esc(c.Text) + `</v></c>`
 	case "e":
-		return `<c` + r + ` t="e"><v>` + esc(c.Text) + `</v></c>`
+		return open("e", false) + `<v>` + esc(c.Text) + `</v></c>`
 	case "n":
-		return `<c` + r + `><v>` + esc(c.Text) + `</v></c>`
+		return open("", false) + `<v>` + esc(c.Text) + `</v></c>`
 	case "fn":
-		return `<c` + r + `><f>` + esc(c.Text) + `+0</f><v>` + esc(c.Text) + `</v></c>`
+		return open("", false) + `<f>` + esc(c.Text) + `+0</f><v>` + esc(c.Text) + `</v></c>`
 	case "z":
-		return `<c` + r + ` s="0"/>`
+		return open("", true)
 	}
 	panic("ooxmlw: unknown cell kind " + c.Kind)
 }
 
 // SheetXML renders one worksheet part.
-func SheetXML(s XSheet) string {
+func SheetXML(s XSheet) string { return SheetXMLSp(s, Spelling{}) }
+
+// SheetXMLSp renders one worksheet part with the cell attributes in the given spelling.
+func SheetXMLSp(s XSheet, sp Spelling) string {
 	var b strings.Builder
 	b.WriteString(xmlDecl)
 	b.WriteString(`<worksheet xmlns="` + nsMain + `" xmlns:r="` + nsRel + `"><sheetData>`)
@@ -118,7 +140,7 @@ func SheetXML(s XSheet) string {
 			b.WriteString(`<row>`)
 		}
 		for _, c := range row.Cells {
-			b.WriteString(cellXML(c))
+			b.WriteString(cellXML(c, sp))
 		}
 		b.WriteString(`</row>`)
 	}
@@ -163,12 +185,17 @@ func (w *XWorkbook) Members() []Member {
 	decl := sortedBy(w.Sheets, func(s XSheet) int { return s.DeclPos })
 	rel := sortedBy(w.Sheets, func(s XSheet) int { return s.RelPos })
 	var wb strings.Builder
-	wb.WriteString(xmlDecl)
-	wb.WriteString(`<workbook xmlns="` + nsMain + `" xmlns:r="` + nsRel + `"><sheets>`)
-	for _, s := range decl {
-		fmt.Fprintf(&wb, `<sheet name="%s" sheetId="%d" r:id="%s"/>`, esc(s.Name), s.SheetID, esc(s.RID))
+	sp := w.Sp
+	wb.WriteString(`<workbook xmlns="` + nsMain + `" xmlns:` + sp.rp() + `="` + nsRel + `"` + sp.mcAttrs() + `><sheets>`)
+	for i, s := range decl {
+		as := []attr{{"name", s.Name}, {"sheetId", fmt.Sprint(s.SheetID)}, {sp.rp() + ":id", s.RID}}
+		if sp.Foreign {
+			as = append(as, attr{"vx:id", fmt.Sprintf("x%d", 900+i)})
+		}
+		wb.WriteString(sp.sep() + sp.el("sheet", as))
 	}
-	wb.WriteString(`</sheets></workbook>`)
+	wb.WriteString(sp.sep() + `</sheets></workbook>`)
+	wbXML := sp.doc(xmlDecl, wb.String())
 
 	var rels []Rel
 	for _, s := range rel {
@@ -207,9 +234,9 @@ func (w *XWorkbook) Members() []Member {
 	}
 	infra := []Member{
 		mem("[Content_Types].xml", contentTypesXML(ov)),
-		mem("_rels/.rels", relsXML(root)),
-		mem("xl/workbook.xml", wb.String()),
-		mem("xl/_rels/workbook.xml.rels", relsXML(rels)),
+		mem("_rels/.rels", relsXMLSp(root, sp)),
+		mem("xl/workbook.xml", wbXML),
+		mem("xl/_rels/workbook.xml.rels", relsXMLSp(rels, sp)),
 	}
 	infra = append(infra, tail...)
 	var parts []Member
@@ -217,7 +244,7 @@ func (w *XWorkbook) Members() []Member {
 	sort.SliceStable(zs, func(i, j int) bool { return zs[i].ZipPos < zs[j].ZipPos })
 	for _, s := range zs {
 		if !s.Absent {
-			parts = append(parts, mem(s.PartName, SheetXML(s)))
+			parts = append(parts, mem(s.PartName, SheetXMLSp(s, w.Sp)))
 		}
 	}
 	return order(infra, parts, w.InfraFirst)
